@@ -58,6 +58,9 @@ var ops = map[int]string{
 	OR_ASSIGN:  "|=",
 }
 
+// bailout is the panic value used to unwind the lexer goroutine
+var bailout = new(struct{ _ int })
+
 type lexer struct {
 	env   *ExecEnv
 	r     io.RuneScanner
@@ -98,7 +101,7 @@ func (l *lexer) run() {
 	defer func() {
 		close(l.token)
 
-		if e := recover(); e != nil {
+		if e := recover(); e != nil && e != bailout {
 			// re-panic
 			panic(e)
 		}
@@ -352,7 +355,7 @@ func (l *lexer) emit(typ int) {
 	case l.token <- tok:
 	case <-l.cancel:
 		// bailout
-		panic(nil)
+		panic(bailout)
 	}
 }
 
